@@ -142,6 +142,19 @@ def run(ctx):
         k = next(rot)
         do_tree(ctx, out, spec, typed, styles[k % 4 :: 4], rot, full=False)
         out.dist["random_tree" + ("_typed" if typed else "")] += 1
+    # clones: equal data_ids at different depths and sibling positions, a node below its own clone (anything remembered per
+    # data_id instead of per node shows here)
+    clone_specs = [
+        [(0, [(1, []), (0, [(2, [])])]), (3, [])],
+        [(0, [(0, [(0, [(1, [])]), (2, [])]), (1, [])]), (2, [(0, [])])],
+        [(0, [(1, [(2, [])])]), (1, [(2, []), (0, [(1, [])])])],
+    ]
+    for _ in range(40 if ctx.thorough else 10):
+        clone_specs.append(gen.random_spec(ctx.rng, ctx.rng.randrange(4, 12), [0, 1, 2, 3], clone_rate=0.7))
+    for spec in clone_specs:
+        k = next(rot)
+        do_tree(ctx, out, spec, False, styles[k % 3 :: 3], rot, full=False)
+        out.dist["clone_tree"] += 1
     return out
 
 
